@@ -2,6 +2,7 @@ package exec
 
 import (
 	"fmt"
+	"go/token"
 	"go/types"
 	"path/filepath"
 	"sort"
@@ -206,7 +207,7 @@ type sendWait struct {
 
 type timerObj struct {
 	id      int
-	due     int64
+	due     Value // int64 nanoseconds of the model clock, or a symbolic 64-bit term
 	ch      *Chan
 	fired   bool
 	stopped bool
@@ -235,7 +236,7 @@ type scheduler struct {
 	killed  bool
 	abort   interface{} // engine signal raised inside a non-main goroutine
 	timers  []*timerObj
-	now     int64
+	now     Value // the logical clock: int64, or a symbolic term once a symbolic due time was reached
 	ctxs    []*Opaque // cancellable contexts the environment may end
 	nextID  int
 	switches int
@@ -243,7 +244,7 @@ type scheduler struct {
 
 func (ex *Exec) scheduler() *scheduler {
 	if ex.sched == nil {
-		s := &scheduler{ex: ex, now: 1_000_000_000}
+		s := &scheduler{ex: ex, now: int64(1_000_000_000)}
 		main := &goroutine{id: 0, name: "main", wake: make(chan bool), isMain: true, started: true, vc: vclock{0: 1}}
 		s.gs = []*goroutine{main}
 		s.cur = main
@@ -290,16 +291,26 @@ func (s *scheduler) envStep() bool {
 	// earliest pending timer(s): timers due at the same instant expire together - all of them fire before any
 	// woken goroutine runs, and the scheduler then explores every order of the woken goroutines (so a request
 	// can land between a timer's expiry and its goroutine's reaction)
-	var minDue int64 = -1
+	// the earliest: a pending timer no other pending timer is strictly before (with symbolic due times the
+	// comparisons are decided by the solver, forking over the feasible orders); then everything tied with it
+	var first *timerObj
 	for _, t := range s.timers {
-		if !t.fired && !t.stopped && (minDue < 0 || t.due < minDue) {
-			minDue = t.due
+		if t.fired || t.stopped {
+			continue
+		}
+		if first == nil || ex.branch("timer-before", ex.i64(token.LSS, t.due, first.due)) {
+			first = t
 		}
 	}
 	var due []*timerObj
-	for _, t := range s.timers {
-		if !t.fired && !t.stopped && t.due == minDue {
-			due = append(due, t)
+	if first != nil {
+		for _, t := range s.timers {
+			if t.fired || t.stopped {
+				continue
+			}
+			if t == first || ex.branch("timer-tie", ex.i64(token.EQL, t.due, first.due)) {
+				due = append(due, t)
+			}
 		}
 	}
 	if len(due) > 0 {
@@ -332,7 +343,7 @@ func (s *scheduler) envStep() bool {
 }
 
 func (s *scheduler) fireTimer(t *timerObj) {
-	if t.due > s.now {
+	if s.ex.branch("clock-advances", s.ex.i64(token.GTR, t.due, s.now)) {
 		s.now = t.due
 	}
 	t.fired = true
@@ -839,7 +850,7 @@ func (ex *Exec) opaqueMethod(op *Opaque, name string, args []Value, caller *fram
 
 var opaqueMethods = map[string]func(ex *Exec, caller *frame, op *Opaque, args []Value) Value{}
 
-func (ex *Exec) timeValue(ns int64) Value {
+func (ex *Exec) timeValue(ns Value) Value {
 	return ex.mkTime(ns)
 }
 
